@@ -790,6 +790,7 @@ def activate(world: World) -> None:
     global _WORLD  # noqa: PLW0603
     install_module_seams()
     _WORLD = world
+    _arm_spin_timer()  # every simulated run starts with a full CPU-time budget (an engine may execute hundreds per scenario)
 
 
 def deactivate() -> None:
